@@ -470,7 +470,7 @@ theorem paramsOf_simple (segs : List Seg) (hw : SegsWF segs) (hnd : (phNames seg
   unfold C01.paramsOf
   have hun : GoURL.pathUnescape (GoURL.pathEscape v) = some v := GoURL.unescape_escape false v
   have hneedle : C01.lbrace :: n ++ [C01.rbrace] = C10.placeholder n := rfl
-  simp only [hun, hneedle, C01.indexOf, hj, Nat.zero_add]
+  simp only [C01.decode, hun, hneedle, C01.indexOf, hj, Nat.zero_add]
   have hcond : (j + n.length + 2 < (flat Seg.text segs).length &&
       (flat Seg.text segs)[j + n.length + 2]? != some C01.slash) = false := by
     have e : j + n.length + 2 = j + (n.length + 2) := by omega
